@@ -2,6 +2,7 @@ package core
 
 import (
 	"go/token"
+	"strings"
 
 	"golang.org/x/tools/go/ssa"
 )
@@ -31,8 +32,14 @@ func DataSlice(fn *ssa.Function, seeds []ssa.Value) *Slice {
 func backwardSlice(fn *ssa.Function, seeds []ssa.Value, seedInstrs []ssa.Instruction, control bool) *Slice {
 	s := &Slice{Fn: fn, Values: map[ssa.Value]bool{}, Blocks: map[*ssa.BasicBlock]bool{}}
 	// the universe of the slice: fn, what is inlined into it, and - when fn itself is inlined - its hosts' bodies
+	// closures / functions that are called through a function value inside the universe (a generic helper applying
+	// a callback): their bodies belong to the slice, their parameters stand for the arguments of those calls
+	dynFns := map[*ssa.Function][]*ssa.Call{}
 	inU := func(g *ssa.Function) bool {
 		if g == fn || InBody(fn, g) {
+			return true
+		}
+		if _, ok := dynFns[g]; ok {
 			return true
 		}
 		if IsInlined(fn) {
@@ -155,7 +162,35 @@ func backwardSlice(fn *ssa.Function, seeds []ssa.Value, seedInstrs []ssa.Instruc
 				}
 			}
 		}
+		if fv, isFree := v.(*ssa.FreeVar); isFree {
+			// captured variable of a closure that is in the slice: what the closure was created with
+			cf := fv.Parent()
+			if _, ok := dynFns[cf]; ok && cf.Parent() != nil {
+				for i, x := range cf.FreeVars {
+					if x != fv {
+						continue
+					}
+					for _, b := range cf.Parent().Blocks {
+						for _, in := range b.Instrs {
+							if mc, ok := in.(*ssa.MakeClosure); ok && mc.Fn == cf && i < len(mc.Bindings) {
+								addV(mc.Bindings[i])
+							}
+						}
+					}
+				}
+			}
+			continue
+		}
 		if p, isParam := v.(*ssa.Parameter); isParam {
+			if sites, ok := dynFns[p.Parent()]; ok {
+				for _, site := range sites {
+					for i, q := range p.Parent().Params {
+						if q == p && i < len(site.Call.Args) {
+							addV(site.Call.Args[i])
+						}
+					}
+				}
+			}
 			// parameter of an inlined callee: the arguments at its inlined sites
 			for _, site := range InlineSites(p.Parent()) {
 				if !inU(site.Parent()) {
@@ -182,6 +217,36 @@ func backwardSlice(fn *ssa.Function, seeds []ssa.Value, seedInstrs []ssa.Instruc
 			continue
 		}
 		addBlock(in.Block())
+		if c, isCall := v.(*ssa.Call); isCall && c.Call.StaticCallee() == nil && !c.Call.IsInvoke() {
+			// call of a function value: when it denotes closures / functions of the repository, their results
+			for _, o := range Origins(c.Call.Value) {
+				var t *ssa.Function
+				switch x := o.(type) {
+				case *ssa.MakeClosure:
+					t, _ = x.Fn.(*ssa.Function)
+				case *ssa.Function:
+					t = x
+				}
+				if t == nil || t.Blocks == nil || pkgOf(t) == nil || !strings.HasPrefix(pkgOf(t).Pkg.Path(), Module) {
+					continue
+				}
+				known := false
+				for _, sc := range dynFns[t] {
+					if sc == c {
+						known = true
+					}
+				}
+				if !known {
+					dynFns[t] = append(dynFns[t], c)
+				}
+				for _, ret := range Returns(t) {
+					for _, rv := range ReturnValues(ret) {
+						addV(rv)
+					}
+					addBlock(ret.Block())
+				}
+			}
+		}
 		if c, isCall := v.(*ssa.Call); isCall && InlinedCallee(c) != nil {
 			// result of an inlined call: what the callee returns (and, below, the arguments as before)
 			for _, ret := range Returns(InlinedCallee(c)) {
